@@ -43,12 +43,33 @@ func c17(c *Ctx) {
 				reach := an.Explore(f, an.After(ab), x.facts, nil)
 				bad := false
 				for _, ret := range reach.Returns() {
-					if reach.EvalAt(ret.Results[0], ret) != an.NonNil && ret.Results[0] != extract(ab.Value(), 1) {
+					if reach.EvalAt(ret.Results[0], ret) != an.NonNil {
 						bad = true
 					}
 				}
 				r.Check(!bad, "PATH", fkey(f)+"/same-node-abort/"+x.name, c.InstrPos(ab), "a same-node reservation stops the job", "after the same-node abort ("+x.name+") the preparation can still return nil and the pod would be evicted")
 			}
+		}
+	}
+	if f := c.Fn(migrationPkg+"/reservation", "interpreterImpl", "DeleteReservation"); f != nil {
+		r.Rule("ERR: in the reservation interpreter's DeleteReservation a failed Client.Delete makes the function return a non-nil error (abortJobIfTimeout relies on it to keep the job alive until the reservation is really gone)")
+		n := 0
+		for _, cl := range an.Calls(f, false) {
+			if !cl.Common().IsInvoke() || cl.Common().Method.Name() != "Delete" || cl.Value() == nil {
+				continue
+			}
+			n++
+			reach := an.Explore(f, an.After(cl), an.Facts{cl.Value(): an.NonNil}, nil)
+			bad := ""
+			for _, ret := range reach.Returns() {
+				if reach.EvalAt(ret.Results[0], ret) != an.NonNil {
+					bad = c.InstrPos(ret)
+				}
+			}
+			r.Check(bad == "", "ERR", fkey(f)+"/delete-error-propagates", c.InstrPos(cl), "a delete failure is returned", "after Client.Delete failed the function can return nil (at "+bad+"): the job is marked failed and never reconciled again while its reservation stays")
+		}
+		if n == 0 {
+			r.Fail("ERR", fkey(f)+"/delete-error-propagates", c.Pos(f.Pos()), "no Client.Delete call found")
 		}
 	}
 	if f := c.Fn(migrationPkg, "Reconciler", "evictPod"); f != nil {
